@@ -231,6 +231,30 @@ def rule_pruning_evaluated(ctx, rid, rr):
                 bad.append(f"{label}: the ancestor closure does not terminate on a cyclic plan (run() would hang instead of rejecting the cycle)")
             else:
                 raise
+    # a cycle that runs through dependency-only literals must survive the pruning (so that the engine's acyclicity assertion reports
+    # it): contracting the literals of a cycle one after the other makes it disappear, and the run silently succeeds
+    for label, lits, edges in (("two literals depending on each other, upstream of the output", ("L1", "L2"), [("L1", "L2"), ("L2", "L1"), ("L2", "b")]),
+                               ("a cycle of three literals upstream of the output", ("L1", "L2", "L3"), [("L1", "L2"), ("L2", "L3"), ("L3", "L1"), ("L3", "b")]),
+                               ("a call and a literal depending on each other", ("L1",), [("a", "L1"), ("L1", "a"), ("a", "b")])):
+        p = _P(m, rr).call("a", "b").lit(*lits).dep(*edges)
+        w = p.w
+        w.interp.budget = 20000
+        kw = {rq[0]: [], on[0]: p.n["b"], ip[0]: False}
+        try:
+            res = w.interp.call_func(prune, None, [w.plan] + [kw[p_] for p_ in prune.pos_params[1:] if p_ in kw],
+                                     {k_: v_ for k_, v_ in kw.items() if k_ in prune.kwonly_params})
+            n_cases += 1
+            g1 = res.attrs["graph"] if isinstance(res, Obj) and "graph" in res.attrs else None
+            still = g1 is not None and any(g1.reach(s_, x) for x in g1._nodes for s_ in g1.successors(x))
+            if not still:
+                bad.append(f"{label}: the pruned plan is acyclic - the cycle is contracted away, nothing reports it and the run succeeds")
+        except AbsRaise:
+            n_cases += 1  # reporting the cycle right here is fine too
+        except AnalysisError as e:
+            if "budget" in str(e):
+                bad.append(f"{label}: the pruning does not terminate")
+            else:
+                raise
     ok = not bad
     ctx.ob(rid, f"{prune.short}/evaluated", ok, loc(prune),
            f"evaluated on {n_cases} abstract plans: exactly the ancestors of the required nodes and the output survive (trivial literals contracted), "
